@@ -326,10 +326,32 @@ impl Prop for C19 {
             ca_delete: 2,
             restart: 5,
             check: 8,
-            max_advance: 2 * 86400,
+            hold_parent_syncs: 3,
+            max_advance: 3 * 86400,
             ..Weights::default()
         };
-        wcase_strategy(cfg_strategy(any::<bool>().boxed(), false), w, 5, ops)
+        // half of the instances suspend children that have been silent for (a little over) two days
+        let cfg = (cfg_strategy(any::<bool>().boxed(), false), prop_oneof![1 => Just(None), 1 => (48u32..60).prop_map(Some)]).prop_map(|(mut c, s)| {
+            c.suspend_hours = s;
+            c
+        });
+        wcase_strategy(cfg.boxed(), w, 5, ops)
+            .prop_map(|mut case| {
+                // where children can be suspended for inactivity, a silent period followed by a restart
+                // is part of most histories (placed by the generated key-pool offset, which is arbitrary)
+                if let Some(h) = case.cfg.suspend_hours {
+                    if case.key_start % 4 != 0 {
+                        case.cfg.disk = true;
+                        let at = (case.key_start as usize / 4) % (case.ops.len().max(1));
+                        let seq = [Op::HoldParentSyncs { on: true }, Op::Advance { secs: h * 3600 + 900 }, Op::Quiesce, Op::Restart, Op::Pump { n: 3 }];
+                        for (k, op) in seq.into_iter().enumerate() {
+                            case.ops.insert(at + k, op);
+                        }
+                    }
+                }
+                case
+            })
+            .boxed()
     }
 
     fn run(case: &WCase, ctx: &Ctx) -> Outcome {
@@ -340,8 +362,16 @@ impl Prop for C19 {
         let res = super::run_wcase2(
             case,
             |sim, op| {
+                // the status is judged after the CAs could talk to their parents
+                if matches!(op, Op::Check) && sim.w().hold_types.iter().any(|h| h == "_with_parent_") {
+                    let _ = sim.apply(&Op::HoldParentSyncs { on: false });
+                }
                 if matches!(op, Op::Restart) && sim.w().cfg.disk {
-                    *before_restart.borrow_mut() = Some(status_digest(sim));
+                    let d = status_digest(sim);
+                    if d.values().any(|v| v.get("children").and_then(|c| c.as_object()).map(|m| m.values().any(|c| c.get("suspended").map(|s| !s.is_null()).unwrap_or(false))).unwrap_or(false)) {
+                        sim.flags.hit("restart_with_child_suspended_for_inactivity");
+                    }
+                    *before_restart.borrow_mut() = Some(d);
                 }
                 Ok(())
             },
@@ -380,7 +410,7 @@ impl Prop for C19 {
                 if stats.restart_after_failure > 0 {
                     classes.push("restart_after_failure".into());
                 }
-                for k in ["publisher_removed", "publisher_readded", "child_removed", "parent_removed", "ca_deleted", "restart", "child_suspended"] {
+                for k in ["publisher_removed", "publisher_readded", "child_removed", "parent_removed", "ca_deleted", "restart", "child_suspended", "restart_with_child_suspended_for_inactivity"] {
                     if sim.flags.has(k) {
                         classes.push(k.to_string());
                     }
